@@ -45,8 +45,10 @@ def ty_has(desc, pred):
 
 
 def union_members(desc):
+    """members of the Unions that have at least two alternatives other than None (an Optional[X] cannot send a value
+    converted by one member to another member)"""
     for _, x in c02.ty_walk(desc):
-        if isinstance(x, dict) and "u" in x:
+        if isinstance(x, dict) and "u" in x and len([m for m in x["u"] if m != "none"]) >= 2:
             for m in x["u"]:
                 yield m
 
@@ -336,6 +338,169 @@ def replay_default_family(rp):
     return sp["dump_" + rp["format"]] != "same"
 
 
+# ---------------------------------------------------------------- registered and restricted types (real code only)
+def canon_any(x):
+    """type-aware snapshot of an arbitrary parsed value"""
+    if x is None:
+        return None
+    if isinstance(x, (list, tuple)):
+        return [type(x).__name__, [canon_any(y) for y in x]]
+    if isinstance(x, dict):
+        return ["dict", [[canon_any(k), canon_any(v)] for k, v in x.items()]]
+    return [type(x).__name__, repr(x)]
+
+
+def registered_family_types():
+    import datetime
+    import decimal
+    import pathlib
+    import uuid
+
+    from jsonargparse import typing as jt
+
+    # (name, type, texts accepted at a leaf, objects already of the type)
+    return [
+        ("timedelta", datetime.timedelta,
+         ["1:02:03", "0:00:01.5", "23:59:59", "24:00:00", "30:00:00", "47:59:59", "48:00:00", "1 day, 2:00:00", "2 days, 0:00:01",
+          "-1 day, 23:00:00", "-1 day, 0:30:00", "100:00:00"],
+         [datetime.timedelta(days=1), datetime.timedelta(hours=30), datetime.timedelta(hours=-1), datetime.timedelta(minutes=-30),
+          datetime.timedelta(seconds=5), datetime.timedelta(days=3, seconds=1)]),
+        ("range", range, ["range(5)", "range(1, 5)", "range(1, 10, 2)", "range(0)", "range(5, 1, -1)"], [range(3), range(2, 9, 3)]),
+        ("bytes", bytes, ["aGVsbG8=", "AA==", "/w=="], [b"hi", b"\x00\xff"]),
+        ("bytearray", bytearray, ["aGVsbG8="], [bytearray(b"hi")]),
+        ("UUID", uuid.UUID, ["12345678-1234-5678-1234-567812345678", "12345678123456781234567812345678"], [uuid.UUID(int=5)]),
+        ("complex", complex, ["(1+2j)", "3j", "1.5", "(1-0.5j)"], [complex(1, 2), complex(0, -1)]),
+        ("Path", pathlib.Path, ["a/b.txt", "/tmp/x", ".", "rel dir/f"], [pathlib.Path("a/b"), pathlib.Path("/")]),
+        ("Decimal", decimal.Decimal, ["0.5", "2", "1.25", "-0.125"], [decimal.Decimal("0.5"), decimal.Decimal("3")]),
+        ("PositiveInt", jt.PositiveInt, ["3", "1"], [5]),
+        ("NonNegativeInt", jt.NonNegativeInt, ["0", "7"], [0]),
+        ("PositiveFloat", jt.PositiveFloat, ["0.5", "2", "1e-3"], [2.5]),
+        ("NonNegativeFloat", jt.NonNegativeFloat, ["0", "0.0", "3.5"], [0.0]),
+        ("ClosedUnitInterval", jt.ClosedUnitInterval, ["0", "1", "0.25"], [0.5, 1.0]),
+        ("OpenUnitInterval", jt.OpenUnitInterval, ["0.5", "0.001"], [0.25]),
+        ("NotEmptyStr", jt.NotEmptyStr, ["a", " x ", "1", "null"], ["abc"]),
+        ("Email", jt.Email, ["a@b.co", "x.y@example.org"], ["q@r.st"]),
+    ]
+
+
+def fixed_point_any(p, cfg):
+    """validate / type-aware reparse / dump cycle for a configuration with arbitrary value types"""
+    from jsonargparse import ArgumentError
+
+    first = canon_any(cfg.k)
+    out = {"first": first}
+    try:
+        p.validate(cfg.clone())
+        out["validate"] = "ok"
+    except Exception as ex:  # noqa: BLE001
+        out["validate"] = "raises:" + type(ex).__name__
+    try:
+        out["reparse"] = {"ok": canon_any(p.parse_object(cfg.clone()).k)}
+    except ArgumentError as ex:
+        out["reparse"] = {"err": "reject", "msg": str(ex)[:120]}
+    except Exception as ex:  # noqa: BLE001
+        out["reparse"] = {"err": "crash:" + type(ex).__name__}
+    for fmt in ("yaml", "json"):
+        try:
+            d1 = p.dump(cfg.clone(), format=fmt)
+            cfg3 = p.parse_string(d1)
+            d2 = p.dump(cfg3, format=fmt)
+            same_val = jdump(canon_any(cfg3.k)) == jdump(first)
+            out["dump_" + fmt] = "same" if d1 == d2 and same_val else {"d1": d1, "d2": d2, "reparsed": canon_any(cfg3.k)}
+        except ArgumentError as ex:
+            out["dump_" + fmt] = {"exc": "ArgumentError", "msg": str(ex)[:160]}
+        except Exception as ex:  # noqa: BLE001
+            out["dump_" + fmt] = {"exc": type(ex).__name__, "msg": str(ex)[:160]}
+    return out
+
+
+def registered_parser(name, position, default_index=None):
+    from typing import List, Optional
+
+    from jsonargparse import ArgumentParser
+
+    entry = next(e for e in registered_family_types() if e[0] == name)
+    T = entry[1]
+    T = {"leaf": T, "optional": Optional[T], "list": List[T]}[position]
+    p = ArgumentParser(exit_on_error=False, default_env=False)
+    if default_index is None:
+        p.add_argument("--k", type=T)
+    else:
+        d = entry[3][default_index]
+        if not isinstance(d, entry[1]):
+            d = entry[1](d)              # a default in normal form (row 15e is about the others)
+        p.add_argument("--k", type=T, default=[d] if position == "list" else d)
+    return p, entry
+
+
+def registered_case(name, position, how, index):
+    """one case of the family on the real parser; returns (observations | None when the apply pass rejects)"""
+    import json
+
+    from jsonargparse import ArgumentError
+
+    if how == "default":
+        p, entry = registered_parser(name, position, index)
+    else:
+        p, entry = registered_parser(name, position)
+    try:
+        if how == "text":
+            t = entry[2][index]
+            if position == "list":
+                try:
+                    item = json.loads(t)
+                    if isinstance(item, (dict, list)) or item is None or isinstance(item, bool):
+                        item = t
+                except ValueError:
+                    item = t
+                t = json.dumps([item, item] if index % 2 else [item])
+            cfg = p.parse_args(["--k=" + t], _skip_validation=True)
+        elif how == "object":
+            o = entry[3][index]
+            cfg = p.parse_object({"k": [copy.deepcopy(o)] if position == "list" else copy.deepcopy(o)}, _skip_validation=True)
+        else:
+            cfg = p.parse_args([], _skip_validation=True)
+    except ArgumentError:
+        return None
+    if cfg.k is None:
+        return None
+    return fixed_point_any(p, cfg)
+
+
+def fixed_point_deviations(sp):
+    devs = []
+    if sp["validate"] != "ok":
+        devs.append(("validate", sp["validate"]))
+    if jdump(sp["reparse"]) != jdump({"ok": sp["first"]}):
+        devs.append(("reparse", sp["reparse"]))
+    for fmt in ("yaml", "json"):
+        if sp["dump_" + fmt] != "same":
+            devs.append(("dump_" + fmt, sp["dump_" + fmt]))
+    return devs
+
+
+def registered_family(ctx: Ctx):
+    n = 0
+    for name, _T, texts, objs in registered_family_types():
+        for position in ("leaf", "optional", "list"):
+            todo = [("text", i) for i in range(len(texts))] + [("object", i) for i in range(len(objs))] + [("default", i) for i in range(len(objs))]
+            for how, i in todo:
+                sp = registered_case(name, position, how, i)
+                ctx.count()
+                if sp is None:
+                    ctx.hist("registered_family", "rejected")
+                    continue
+                n += 1
+                ctx.count(4)
+                ctx.hist("registered_family", name)
+                ctx.nontrivial(jdump(["registered", name, position, how, i]))
+                for what, got in fixed_point_deviations(sp):
+                    ctx.violation("%s value at %s position is not a fixed point (%s)" % (name, position, what),
+                                  {"kind": "registered", "type": name, "position": position, "how": how, "index": i, "what": what,
+                                   "first": sp["first"], "got": got})
+    ctx.extra["registered_family_cases"] = n
+
+
 # ---------------------------------------------------------------- the check
 def run(ctx: Ctx):
     repo_python_path()
@@ -347,6 +512,8 @@ def run(ctx: Ctx):
         "equality of configurations is judged on the typed canonical form (1, 1.0 and True are different values), stricter than Python ==",
         "values at positions typed Any (or Union[..., Any]) are plain data (no Enum members, sets, tuples) for the dump round trip",
         "when a result holds a set with two or more elements, second-pass/serialiser outputs that depend on list(set) order are not compared",
+        "registered types (timedelta, range, bytes, bytearray, UUID, complex, pathlib.Path, Decimal with float-exact values) and the restricted "
+        "number/string types are checked at leaf / Optional / List positions on the real parser only (no model correspondence); not inside other Unions",
     ]
     ctx.lean_build(extractors=["adapt_tables"])
     run_ = c02.Run(ctx)
@@ -448,6 +615,7 @@ def run(ctx: Ctx):
         ctx.sample({"type": c[0], "channel": c[1], "input": c[2]})
 
     default_family(ctx)
+    registered_family(ctx)
 
     # ---- findings -------------------------------------------------------------
     for f in ctx.open_findings():
@@ -470,6 +638,10 @@ def replay_case(ctx: Ctx, rp, quiet=False):
     kind = rp["kind"]
     if kind == "with-default":
         return replay_default_family(rp)
+    if kind == "registered":
+        sp = registered_case(rp["type"], rp["position"], rp["how"], rp["index"])
+        say(jdump(sp)[:1500])
+        return sp is not None and any(w == rp["what"] for w, _ in fixed_point_deviations(sp))
     if kind == "default":
         try:
             a, b = default_case(rp["desc"], rp["default"])
